@@ -7,6 +7,11 @@ d  ordering (stable by segment), de-duplication against the previous kept hit, t
 e  the affine event g = n.state - c and axis_plane's unit normal
 
 e (added)  every SynodicBackendRequest the engine builds (serial and per worker) copies every detection setting of the template
+
+c (round 3)  data affine in time are located exactly on a non-uniform grid by the scalar detector (algorithm-independent oracle); both detectors are
+   equivariant under reversing the time stamps (stable-manifold branches) in cubic mode
+e-config (round 3)  SynodicMapConfig objects built by their real constructor reach the backend request with the configured normal / offset / direction and
+   the interpolation kind as the string the backend compares with;  e-cache: the synodic service's key contains every parameter (C20.b re-filed)
 """
 from __future__ import annotations
 
@@ -51,6 +56,7 @@ def run(tier):
     _a_scalar(chk)
     _b_c_cubic_refine(chk)
     _c_scalar_time_nonuniform(chk)
+    _c_time_orientation(chk)
     _b_linear(chk)
     _d_order_dedup(chk)
     _e_event(chk)
@@ -504,6 +510,54 @@ def _c_scalar_time_nonuniform(chk):
                   f"g(t) = t - 2 and x(t) = (3t+1, 5-t/2) sampled at t = {T}: the detector reports {hits} after {newton} Newton step(s) instead of t = 2, x = (7, 4): "
                   f"its cubic model does not reproduce data that are affine in time (slopes not taken over the true time differences)",
                   sample=f"affine data on the grid {T}: hit exactly at t = 2, x = (7, 4) ({newton} Newton step(s))")
+
+
+def _c_time_orientation(chk):
+    """A sampled trajectory whose time stamps decrease (every stable-manifold branch: propagated backward, stamps 0 ... -T) is
+    the same curve: with cubic interpolation requested, both detectors must report, for the stamps -t_k, the hit time -t* and
+    the same hit state they report for the stamps t_k (the Hermite model is orientation-free: slopes dg/dt and the signed dt
+    change sign together).  A guard `dt > 0` silently replaces the cubic model by the chord on such trajectories."""
+    R = sp.Rational
+    T = [0, 1, 3, 7]
+    gs = tuple(sp.Symbol(f"g{k}", real=True) for k in range(4))
+    rep4 = {gs[0]: R(-3), gs[1]: R(-1), gs[2]: R(2), gs[3]: R(4)}
+
+    def scalar(Tv):
+        cap, tms, sts = _scalar_run(None, rep4, gs, use_cubic=True, r=1, N=4, newton=1, time_rep=Tv)
+        sub = {tms[k]: sp.Integer(v) for k, v in enumerate(Tv)}
+        sub.update(rep4)
+        out = []
+        for t, x in zip(cap.get("cand_times", []), cap.get("cand_states", [])):
+            out.append((sp.nsimplify(select_minmax(S(t), sub).subs(sub)), [sp.expand(select_minmax(S(v), sub).subs(sub)) for v in to_obj_array(x)]))
+        return out
+
+    fwd, bwd = scalar(T), scalar([-t for t in T])
+    chk.count("functions partially evaluated", 2)
+    ok = len(fwd) == len(bwd) == 1 and fwd[0][0] == -bwd[0][0] and all(sp.expand(a - b) == 0 for a, b in zip(fwd[0][1], bwd[0][1]))
+    chk.check(ok, "C15.c", f"{SB}::_detect_with_segment_refine[cubic,time orientation]",
+              f"stamps {T} give the hit {fwd[0] if fwd else None}; the same samples stamped {[-t for t in T]} give {bwd[0] if bwd else None}: not the mirror image "
+              f"(the cubic model is dropped on a decreasing grid)", sample="decreasing stamps: hit time mirrored, hit state identical (cubic)")
+    # vectorised refinement
+    N = 4
+    g = to_obj_array([sp.Symbol(f"g{k}", real=True) for k in range(N)])
+    states = np.empty((N, 2), dtype=object)
+    for k in range(N):
+        for d in range(2):
+            states[k, d] = sp.Symbol(f"x{k}_{d}", real=True)
+    al = R(1, 3)
+    res = {}
+    for sign in (1, -1):
+        times = to_obj_array([sp.Integer(sign * t) for t in T])
+        rep = {g[0]: -3, g[1]: -1, g[2]: 2, g[3]: 4}
+        ip = Interp(decide=RegionDecider(rep))
+        gv = to_obj_array([R(-3), R(-1), R(2), R(4)])
+        th, xh = ip.call_function(SB, "_refine_hits_cubic", [times, states, gv, np.array([1]), to_obj_array([al])], {"max_iter": 1})
+        chk.count("functions partially evaluated")
+        res[sign] = (sp.nsimplify(S(to_obj_array(th).ravel()[0])), [sp.expand(S(v)) for v in to_obj_array(xh)[0]])
+    ok = res[1][0] == -res[-1][0] and all(sp.expand(a - b) == 0 for a, b in zip(res[1][1], res[-1][1]))
+    chk.check(ok, "C15.c", f"{SB}::_refine_hits_cubic[time orientation]",
+              f"stamps {T}: hit at {res[1][0]}; stamps {[-t for t in T]}: hit at {res[-1][0]} with a different state model: the cubic refinement is not applied to a decreasing grid",
+              sample="decreasing stamps: hit time mirrored, hit state identical (cubic)")
 
 
 def _clamp_paths(chk):
